@@ -23,6 +23,15 @@ def enum(engine, **kw):
 
 PROPS = {
     "C13": enum("kern_enum", memory=True, assumptions=["contents are sampled (seeded random, all-ones, single-bit); content dependence of the GF kernels is table lookup, checked entry by entry by C14", "Release configuration (OF_DEBUG off), little-endian x86-64, ASSEMBLY_SSE_OPT off: the configuration the tree builds"]),
+    "C16": dict(engine="hist_rc", nosan=False, memory=True,
+                phases=dict(quick=[dict(mode="enum", timeout=900)], thorough=[dict(mode="enum", timeout=3400)]),
+                assumptions=["the code is read off the library's own encoder (identity payload, each repair built alone) and must satisfy the product-structure predicate; the decoder oracle (GF(2) determinability) uses those observed equations", PROTO_ASSUME]),
+    "C17": dict(engine="mat_rc", nosan=False, memory=True,
+                phases=dict(quick=[dict(mode="random", cases=1500, size=300, timeout=900)], thorough=[dict(mode="random", cases=30000, size=500, timeout=3000)]),
+                assumptions=["arguments are always in range and dimension preconditions hold by construction (the property excludes out-of-range arguments)", "copyrows_opt / copycols_opt / copy_filled_matrix insert into their destination; destinations are fresh so that 'copy' and 'merge' readings agree"]),
+    "C18": dict(engine="mat_rc", nosan=False, memory=True,
+                phases=dict(quick=[dict(mode="random", cases=2000, size=300, timeout=900)], thorough=[dict(mode="random", cases=40000, size=500, timeout=3000)]),
+                assumptions=["of_hweight_array / row_weight_ignore_first are called where whole-word and exact-bit readings agree (padding bits zero, nb_ignore multiple of 32)", "copycols destinations have the source's row count", "the solver is called with non-NULL right-hand sides and a caller-built control block as the ML decoder builds it"]),
     "C19": enum("prng_enum", assumptions=["the state variable is reached through an optional probe (extern of_seed); without it states are set through of_rfc5170_srand"]),
     "C20": enum("blk_enum", assumptions=["blocking_struct.c is compiled by translation-unit inclusion with its unconditional printf compiled out"]),
     "C14": enum("kern_enum", assumptions=["tables are observed through optional probe translation units (harness/probe_gf.c, probe_rs8.c) that include the repository's own headers / source file"]),
